@@ -57,6 +57,35 @@ def outcome(ver, kind):
     return {"v0only": "v0", "v1only": "v1", "amb": "v1"}[kind]
 
 
+def expected_version(file_name, project, roots, manifests):
+    """the property's statement evaluated directly: the version configured for the deepest configured directory that
+    contains the file (a root without rego-version and a manifest without rego_version configure nothing; a config root
+    beats a manifest in the same directory; the project-wide setting is the entry of the project directory itself and
+    beats a manifest there), else undefined (= detected from the source)"""
+    entries = {}
+    for d, v in manifests.items():
+        if v is not None:
+            entries[tuple(d.split("/")) if d else ()] = v
+    for p, v in roots:
+        if v is not None:
+            entries[tuple(p.split("/"))] = v
+    if project is not None:
+        entries[()] = project
+    comps = tuple(file_name.split("/")[:-1])
+    best = None
+    for d, v in entries.items():
+        if comps[:len(d)] == d and (best is None or len(d) > len(best[0])):
+            best = (d, v)
+    return "undefined" if best is None else "v%d" % best[1]
+
+
+SPECIAL = {"foo": "my foo", "foobar": "my foobar", "bar": "bär+x", "barx": "bär+xx", "baz": "b%41z"}
+
+
+def respell(path):
+    return "/".join(SPECIAL.get(c, c) for c in path.split("/"))
+
+
 def part_tree(ctx):
     rng = ctx.rng("tree")
     dirs = ["", "foo", "foobar", "foo/bar", "bar"]
@@ -86,7 +115,8 @@ def part_tree(ctx):
             proj["roots"] = [({"path": p, "rego-version": v} if v is not None else p) for p, v in roots]
         if proj:
             conf["project"] = proj
-        cases.append({"id": k, "op": "c20.tree", "config": conf, "files": files, "_regos": regos})
+        cases.append({"id": k, "op": "c20.tree", "config": conf, "files": files, "_regos": regos,
+                      "_spec": (project, [list(r) for r in roots], dict(manifests))})
         mcases.append({"id": k, "op": "c20.tree", "manifests": {d: v for d, v in manifests.items() if v is not None},
                        "project": project, "roots": [[p, v] for p, v in roots if v is not None], "files": sorted(regos)})
     impl = ctx.impl(cases, procs=1)     # chdir is process-global
@@ -106,12 +136,51 @@ def part_tree(ctx):
             ver = (m.get("files") or {}).get(name)
             want = outcome(ver, kind)
             ctx.count("tree:%s/%s" % (ver, kind))
+            project, roots, manifests = c["_spec"]
+            stated = outcome(expected_version(name, project, roots, manifests), kind)
+            if len(set(got.values())) == 1 and got.get("absolute") != stated:
+                ctx.fail("a file is not parsed with the version of the deepest configured directory containing it",
+                         cc, None, {"file": name, "got": got.get("absolute"), "stated": stated,
+                                    "project": project, "roots": roots, "manifests": manifests})
             if len(set(got.values())) > 1:
                 ctx.fail("a file is parsed differently depending on how its path is spelled (relative / absolute / ./ / "
                          "from its own directory / from the parent of the root)", cc, None, {"file": name, "got": got})
             elif got.get("absolute") != want:
                 ctx.brk("InputFromPaths (version per file) ~ Version.lookup∘allVersions", cc, {"file": name, "got": got},
                         {"version": ver, "want": want})
+    # the same trees through the language server, with directory names that are percent-encoded in URIs
+    lcases = []
+    for c in cases[: (16 if ctx.quick else 200)]:
+        project, roots, manifests = c["_spec"]
+        conf = {"rules": {}}
+        proj = {}
+        if project is not None:
+            proj["rego-version"] = project
+        if roots:
+            proj["roots"] = [({"path": respell(p), "rego-version": v} if v is not None else respell(p)) for p, v in roots]
+        if proj:
+            conf["project"] = proj
+        files = {respell(f): t for f, t in c["files"].items()}
+        for client in (["verif", "Visual Studio Code"] if len(lcases) % 4 == 0 else ["verif"]):
+            lcases.append({"id": len(lcases), "op": "c20.lsp", "client": client, "config": conf, "files": files, "_of": c})
+    lres = ctx.impl(lcases, timeout=3000, procs=6)
+    for lc in lcases:
+        o = lres[lc["id"]].get("out") or {}
+        c = lc["_of"]
+        project, roots, manifests = c["_spec"]
+        cc = {k: v for k, v in lc.items() if not k.startswith("_")}
+        if "files" not in o:
+            ctx.brk("c20.lsp harness", cc, lres[lc["id"]], None)
+            continue
+        for name in c["_regos"]:
+            want = expected_version(name, project, roots, manifests)
+            got = o["files"].get(respell(name))
+            got = {"unknown": "undefined"}.get(got, got)
+            ctx.seen({"lsp": lc["id"], "file": name}, ("lsp", lc["id"], name) if want != "undefined" else None)
+            ctx.count("lsp:%s" % want)
+            if got != want:
+                ctx.fail("the language server parses a document with another version than the deepest configured directory "
+                         "containing it gives", cc, None, {"file": respell(name), "got": got, "stated": want})
     ctx.sample({"config": cases[3]["config"], "files": sorted(cases[3]["files"]), "impl": impl[3].get("out")})
 
 
